@@ -6,8 +6,12 @@ CONSTANTS Widths,      \* configurations explored, coded  2 * width + (1 if big 
           Values,      \* signal values explored (taken modulo 2^width)
           MaxPolls
 
-MCConfigs == {[width |-> c \div 2, bigEndian |-> (c % 2 = 1), epNum |-> 1, devAddr |-> 0] : c \in Widths}
-Vals == {v % (2 ^ Width) : v \in Values}
+MCConfigs == {[width |-> c \div 2, bigEndian |-> (c % 2 = 1), epNum |-> 1, devAddr |-> 0,
+               signalDomain |-> "usb", syncCycles |-> 0] : c \in Widths}
+\* integer (< 2^31) -> value of the signal (limbs), truncated to the signal's width
+Masked(v) == IF Width < 31 THEN v % (2 ^ Width) ELSE v
+Limbs(v) == [i \in 1..NLimbs |-> IF i = 1 THEN Masked(v) % 65536 ELSE IF i = 2 THEN Masked(v) \div 65536 ELSE 0]
+Vals == {Limbs(v) : v \in Values}
 
 \* traffic that does not concern the endpoint <<pid, addr, ep, ack, hd>>: unanswered tokens, an acknowledged IN
 \* transaction of another endpoint of this device and of another device, OUT / SETUP transactions with data
